@@ -23,6 +23,7 @@ func init() {
 
 func c16Twin(shiftStreams bool) twinDef {
 	return twinDef{
+		asymmetric: true,
 		variants: func(seed uint64, params map[string]int) (map[string]int, map[string]int) {
 			a, b := copyParams(params), copyParams(params)
 			h := vsimNewTape("c16", seed)
@@ -196,6 +197,7 @@ func dSeqShift(w *world) {
 func init() {
 	registerScenario("D_seq_shift", dSeqShift)
 	registerTwin("D_seq_shift", twinDef{
+		asymmetric: true,
 		variants: func(seed uint64, params map[string]int) (map[string]int, map[string]int) {
 			a, b := copyParams(params), copyParams(params)
 			a["tsn0"], a["tsn1"], a["ssn"], a["mid"] = 0x90000000, 0xA0000000, 0, 0
@@ -292,3 +294,84 @@ func dSerialArithmetic(w *world) {
 }
 
 func init() { registerScenario("D_serial_arithmetic", dSerialArithmetic) }
+
+// dBitmapWrap: thousands of one-byte messages are in flight across TSN 2^32 while the first
+// packet is lost, so the receiver tracks a gap-free run of more than 4096 TSNs above a hole
+// that spans the wrap (default receive buffer: 132-word tracking bitmap).
+func dBitmapWrap(w *world) {
+	cfg := directedConfig(w, false)
+	for i := range cfg.Side {
+		cfg.Side[i].ForceTSN = true
+		cfg.Side[i].InitialTSN = uint32(w.params[fmt.Sprintf("tsn%d", i)])
+	}
+	cfg.StepBudget = 6000000
+	if rb := w.params["recvbuf"]; rb > 0 {
+		cfg.Side[1].RecvBuf = uint32(rb)
+	}
+	w.canonEmit = true
+	x, mon, ok := directedStart(w, cfg)
+	if !ok {
+		return
+	}
+	w.sim.noPerm = true
+	w.params["phase_ms"] = 20000
+	n := 4600
+	if v := w.params["nmsgs"]; v > 0 {
+		n = v
+	}
+	w.probe(fmt.Sprintf("deep-window-%dk", n/1000))
+	sizes := make([]int, n)
+	for i := range sizes {
+		sizes[i] = 1
+	}
+	x.dirs = []*xferDir{{sid: 1, from: 0, unordered: true, sizes: sizes, preopen: true, setRecvParams: true}}
+	drops := 1
+	if v := w.params["drops"]; v > 0 {
+		drops = v
+	}
+	dropDataOnce(w, 0, drops)
+	runXfer(w, x, mon, false, false)
+}
+
+func init() {
+	registerScenario("D_bitmap_wrap", dBitmapWrap)
+	registerTwin("D_bitmap_wrap", bitmapWrapTwin(false))
+	// C16w: the same history with seeded depth, wrap offset, receive-buffer size (bitmap length) and loss
+	registerScenario("C16w", dBitmapWrap)
+	registerTwin("C16w", bitmapWrapTwin(true))
+}
+
+func bitmapWrapTwin(seeded bool) twinDef {
+	return twinDef{
+		asymmetric: true,
+		variants: func(seed uint64, params map[string]int) (map[string]int, map[string]int) {
+			a, b := copyParams(params), copyParams(params)
+			if _, ok := a["tsn0"]; !ok {
+				a["tsn0"] = int(uint32(0xFFFFFFFF - 4200 + 1))
+				if seeded {
+					h := vsimNewTape("c16w", seed)
+					rb := pick(h, 0, 0, 262144, 524288, 1500000, 2097152, 3000000)
+					win := 8448
+					if rb != 0 {
+						win = (rb*4/500 + 63) / 64 * 64
+						if win < 2048 {
+							win = 2048
+						}
+					}
+					a["recvbuf"], b["recvbuf"] = rb, rb
+					n := 1000 + h.intn(win)
+					a["nmsgs"], b["nmsgs"] = n, n
+					a["tsn0"] = int(uint32(0 - uint32(1+h.intn(n))))
+					d := 1 + h.intn(3)
+					a["drops"], b["drops"] = d, d
+				}
+			}
+			a["tsn1"], a["ssn"], a["mid"] = 0x30000000, 0, 0
+			b["tsn0"], b["tsn1"], b["ssn"], b["mid"] = 0x10000000, 0x30000000, 0, 0
+			return a, b
+		},
+		verdict: func(a map[string]int, ra, rb *runResult) (string, string, string) {
+			return "C16", "behaviour-depends-on-sequence-values", fmt.Sprintf("initial TSN %d (2^32-%d) behaves differently from 0x10000000 with more than 4096 TSNs received above a hole", a["tsn0"], uint32(0-uint32(a["tsn0"])))
+		},
+	}
+}
